@@ -13,8 +13,12 @@ the message types (proto3 scalars have no presence) or stated in DESIGN.md Appen
   its default value is *not reported*; a value inside a present wrapper message (`SleepTimeout{0}`) is reported;
 * an empty capability set, an empty `;`-list and a payload without non-white-space content are not expressible in
   ASCII (the `key=value` family needs a value) and are not reported;
-* payload-carrying values (SVG, JSON, messages) are compared modulo the C07 normal form: `payload c` holds the
-  content with all white-space runes deleted (`Spec.Strip.contentOf`);
+* payload-carrying values are compared modulo the C07 normal form (DESIGN.md Appendix B: "white space at the edges of
+  the original lines" is insignificant, everything else — in particular white space INSIDE a line — is significant):
+  for JSON profiles, topology JSON and message texts `payload c` holds `normLines v` (every LF-separated line without the
+  white space at its two ends, concatenated), so a payload without line feed is compared exactly up to the white space
+  at its two ends; the topology SVG alone is compared by its content with all white-space runes deleted
+  (`Spec.Strip.contentOf`), because its flattening inserts a blank where a line does not end in `>`;
 * `Press` is not an effect: it reads as `binary … true` followed by `binary … false`;
 * FLAG registers are Booleans with numeric ids (`reg Flag "7" 1`);
 * SysStat is a record: all 20 fields are reported, absent fields of a line at their zero value;
@@ -25,7 +29,7 @@ open RawPanelVerif RawPanelVerif.Bytes RawPanelVerif.MsgOut
 
 inductive Val
   | text (b : Bytes)          -- exact byte string
-  | payload (c : Bytes)       -- white-space-free content (C07 normal form)
+  | payload (c : Bytes)       -- C07 normal form (`normLines`; SVG: white-space-free content)
   | num (n : Int)
   | flag (b : Bool)
   | items (l : List Bytes)    -- `;`-list
@@ -68,8 +72,16 @@ def sysKeys : List Bytes :=
 
 def content (v : Bytes) : Bytes := Spec.Strip.contentOf v
 
+/-- C07 normal form of a line-structured payload: the LF-separated lines, each without the white space at its two ends,
+concatenated in order -/
+def normLines (v : Bytes) : Bytes := ((Spec.Strip.splitLF v).map trimSpace).flatten
+
 def textEff (key v : Bytes) : List Effect := if v = [] then [] else [.info key (.text v)]
-def payloadEff (key v : Bytes) : List Effect := if content v = [] then [] else [.info key (.payload (content v))]
+/-- JSON profiles, topology JSON, message texts -/
+def payloadEff (key v : Bytes) : List Effect := if normLines v = [] then [] else [.info key (.payload (normLines v))]
+/-- the topology SVG -/
+def svgEff (v : Bytes) : List Effect :=
+  if content v = [] then [] else [.info (asc "_panelTopology_svgbase") (.payload (content v))]
 def numEff (key : Bytes) (n : Nat) : List Effect := [.info key (.num n)]
 def numEff0 (key : Bytes) (n : Nat) : List Effect := if n = 0 then [] else [.info key (.num n)]
 def itemsEff (key : Bytes) (l : List Bytes) : List Effect := if l = [] then [] else [.info key (.items l)]
@@ -131,7 +143,7 @@ def regEff (r : Register) : List Effect :=
 def effectsOfOut (o : OutOracle) (m : OutMsg) : List Effect :=
   flowEff m.flow ++
   optEff m.panelInfo panelInfoEff ++
-  optEff m.topology (fun t => payloadEff (asc "_panelTopology_svgbase") t.svgbase ++ payloadEff (asc "_panelTopology_HWC") t.json) ++
+  optEff m.topology (fun t => svgEff t.svgbase ++ payloadEff (asc "_panelTopology_HWC") t.json) ++
   optEff m.burnin (payloadEff (asc "_burninProfile")) ++
   optEff m.netConfig (fun c => [.info (asc "_networkConfig") (.net c)]) ++
   optEff m.calibration (payloadEff (asc "_calibrationProfile")) ++
